@@ -212,6 +212,7 @@ PROPS["C14"] = dict(
     stages=lambda tier: [
         mc("bcast-exhaustive", "MC_C14.tla", "MC_C14_quick.cfg" if tier == "quick" else "MC_C14_thorough.cfg",
            min_cases=20000),
+        ops_trace(tier, "MultidirectionalBroadcast,UnidirectionalBroadcast", 300, 4000),
     ],
 )
 
@@ -225,7 +226,7 @@ PROPS["C03"] = dict(
         mc("shapes", "MC_C03.tla", "MC_C03_shapes_%s.cfg" % tier, min_cases=2000),
         mc("values", "MC_C03.tla", "MC_C03_values.cfg", min_cases=1000),
         mc("types", "MC_C03.tla", "MC_C03_types.cfg", min_cases=100),
-        ops_trace(tier, "Add,Sub,Mul"),
+        ops_trace(tier, "Add,Sub,Mul,Equal,Less,LessOrEqual,Greater,GreaterOrEqual,And,Or,Xor", 60, 800),
     ],
 )
 
@@ -323,7 +324,11 @@ PROPS["C05"] = dict(
 )
 
 def _c06(tier):
-    return [mc("recurrent", "MC_C06.tla", "MC_C06_%s.cfg" % tier, min_cases=2000)]
+    st = [mc("recurrent", "MC_C06.tla", "MC_C06_%s.cfg" % tier, min_cases=2000)]
+    if tier == "thorough":
+        # TLC evaluates a whole recurrence per event as one expression (about a second each): thorough tier only
+        st.append(trace("random-invocations-trace", ["ops", "-ops", "RNN,GRU,LSTM", "-n", "40"], "Trace_Ops.tla", "Trace_Ops.cfg", timeout=3000))
+    return st
 
 
 PROPS["C06"] = dict(
@@ -347,7 +352,8 @@ PROPS["C12"] = dict(
          "bits; non-trivial = every case with a definite value or error outcome",
     assumptions=["when both a typed field and raw data are populated the typed field is the payload (library convention; ONNX allows only one)",
                  "bool payload bytes other than 0/1 and zero-element tensors are no-crash only"],
-    stages=lambda tier: [mc("decode", "MC_C12.tla", "MC_C12_quick.cfg", min_cases=1500)],
+    stages=lambda tier: [mc("decode", "MC_C12.tla", "MC_C12_quick.cfg", min_cases=1500),
+                         trace("random-protos-trace", ["decode", "-n", "100" if tier == "quick" else "3000"], "Trace_Decode.tla", "Trace_Decode.cfg")],
 )
 
 PROPS["C13"] = dict(
